@@ -40,6 +40,7 @@ func main() {
 		concrete  = flag.String("concrete", "", "JSON file of concrete inputs {name:[values...]} (translator validation)")
 		qlog      = flag.String("querylog", "", "prefix for solver query logs")
 		tags      = flag.String("tags", "verif", "build tags")
+		calibF    = flag.String("calib", "", "JSON file {fact: bool} measured natively (model calibration)")
 		noslice   = flag.Bool("noslice", false, "disable independent-constraint slicing of queries")
 		only      = flag.String("only", "", "comma-separated label prefixes: assertions whose label starts with another 'Cnn:' prefix are not checked")
 	)
@@ -145,6 +146,10 @@ func main() {
 			}
 		}
 	}
+	calib := map[string]bool{}
+	if *calibF != "" {
+		mustJSON(*calibF, &calib)
+	}
 	var conc map[string][]string
 	if *concrete != "" {
 		mustJSON(*concrete, &conc)
@@ -167,7 +172,7 @@ func main() {
 			continue
 		}
 		c := &Config{Unwind: *unwind, MaxSteps: *maxSteps, MapPermMax: *permMax, Solver: *solver,
-			TimeoutMs: *timeoutMs, Workers: *workers, MaxPaths: *maxPaths, QueryLog: *qlog, Concrete: conc, NoSlice: *noslice}
+			TimeoutMs: *timeoutMs, Workers: *workers, MaxPaths: *maxPaths, QueryLog: *qlog, Concrete: conc, NoSlice: *noslice, Calib: calib}
 		if *only != "" {
 			c.Only = strings.Split(*only, ",")
 		}
